@@ -41,7 +41,6 @@ class ZemaxToOpticConverter:
         """
         for idx, surf_data in self.data['surfaces'].items():
             self._configure_surface(idx, surf_data)
-        self.optic.add_surface(index=len(self.data['surfaces']))
 
     def _configure_surface(self, index, data):
         """
@@ -52,7 +51,7 @@ class ZemaxToOpticConverter:
                                surface_type=data['type'],
                                radius=data['radius'],
                                conic=data['conic'],
-                               thickness=data['thickness'],
+                               thickness=data.get('thickness', 0.0),
                                is_stop=data['is_stop'],
                                material=data['material'],
                                coefficients=coefficients)
